@@ -140,6 +140,11 @@ def cut_slice(text, sl):
             a, b, body = find_region(text, sl.get("within"), rg["start"], rg["end"])
         except LostAnchor as e:
             raise LostAnchor(f"{sl['name']}: {e}")
+        if rg.get("inner"):
+            # body of the block only: drop the line that opens it and the line that closes it
+            lines_ = body.split("\n")
+            body = "\n".join(lines_[1:-1])
+            a, b = a + 1, b - 1
         if idx > 0:
             parts.append(glue[idx - 1] if idx - 1 < len(glue) else "")
         parts.append(f"// ---- verbatim {sl['file']} lines {a + 1}-{b + 1} ----")
@@ -155,6 +160,27 @@ def cut_slice(text, sl):
 # The slices.  Free variables of a region become parameters / prologue locals of the wrapper.
 # ------------------------------------------------------------------------------------------------
 SLICES = [
+    {
+        "name": "verif_gen_body",
+        "file": "chess/mod.rs",
+        "within": r"^\s*pub fn get_moves\(",
+        "header": "impl Game { pub(crate) fn verif_gen_body(&mut self, row: i8, col: i8, mut push: impl FnMut(Move))",
+        "regions": [{"start": r"^\s*for col in 0\.\.8 \{", "end": ("block",), "inner": True}],
+        "post": "}",
+        "drops": "moves.clear(), the king_exists early return, the closure definition, the two `for row/col in 0..8` headers",
+    },
+    {
+        "name": "verif_filter_body",
+        "file": "chess/mod.rs",
+        "within": r"^\s*pub fn get_moves\(",
+        "header": "impl Game { pub(crate) fn verif_filter_body(&mut self, moves: &mut ArrayVec<Move, 256>, index: usize, mut keep_index: usize, "
+                  "is_king_targeted: bool, king_position: Position, player: Player) -> usize",
+        "pre": "for _once in 0..1 {",
+        "regions": [{"start": r"^\s*for index in 0\.\.moves\.len\(\) \{", "end": ("block",), "inner": True}],
+        "post": "}\nkeep_index }",
+        "drops": "the `for index in 0..moves.len()` header, the four `let` lines before it (player, king_position, is_king_targeted, keep_index) "
+                 "and moves.truncate(keep_index) after it",
+    },
     {
         "name": "verif_budget",
         "file": "uci.rs",
